@@ -22,18 +22,19 @@ def cell_job(job):
     name, absz, kind, hsign, spec = job[:5]
     warm = len(job) > 5 and bool(job[5])
     cls = getattr(de.integrators, name)
-    dt = np.dtype("float64")
+    dt = np.dtype(job[6] if len(job) > 6 else "float64")      # long double: the library's own dogleg solves the stage equations (no MINPACK)
+    TOL = job[7] if len(job) > 7 else 1e-10
     h = 0.5 * hsign
     lam = -absz / abs(h) * hsign        # h * lam = -absz
     ncalls = [0]
     if kind == "real":
-        L = np.array([[lam]])
-        y0 = np.array([1.0])
+        L = np.array([[lam]], dtype=dt)
+        y0 = np.array([1.0], dtype=dt)
     else:
         # damped oscillation: eigenvalues lam (cos 60deg +- i sin 60deg) -> z in the open left half plane, |z| = absz
         a, b = lam * 0.5, abs(lam) * math.sqrt(3.0) / 2.0
-        L = np.array([[a, -b], [b, a]])
-        y0 = np.array([0.8, -0.6])
+        L = np.array([[a, -b], [b, a]], dtype=dt)
+        y0 = np.array([0.8, -0.6], dtype=dt)
 
     def f(t, y, scale=1.0):
         ncalls[0] += 1
@@ -41,7 +42,7 @@ def cell_job(job):
             raise traced.BudgetExceeded("budget")
         return scale * (L @ y)
     f.jac = lambda t, y, scale=1.0: scale * L
-    out = {"name": name, "absz": absz, "kind": kind + ("-second-step" if warm else ""), "hsign": hsign, "spec": bool(spec), "agree": -1, "growTol": 0, "finite": True,
+    out = {"name": name, "absz": absz, "kind": kind + ("-second-step" if warm else "") + ("" if dt == np.dtype("float64") else " " + dt.name), "hsign": hsign, "spec": bool(spec), "agree": -1, "growTol": 0, "finite": True,
            "tableOk": True, "mustObserve": bool(absz <= 1.0)}
     try:
         integ = cls(y0.shape, dtype=dt, rtol=TOL, atol=TOL)
@@ -107,6 +108,14 @@ def check(run, replay=None):
                     jobs.append((n, z, kind, hs, None))
                 if z <= 1e3:
                     jobs.append((n, z, kind, 1, None, True))
+    # long double: the stage equations are solved by the library's own dogleg (scipy's MINPACK front end takes doubles only)
+    for n in names:
+        if n == "RadauIIA19" and not thorough:
+            continue
+        for z in ((1e-1, 1e2, 1e4, 1e6) if not thorough else decades):
+            for kind in (("real",) if not thorough else ("real", "osc")):
+                for hs in (1, -1):
+                    jobs.append((n, z, kind, hs, None, False, "longdouble", 1e-6))
     for c in gen["cells"]:
         if c["name"] in names:
             for hs in (1, -1):
